@@ -210,17 +210,19 @@ def run(chk):
             chk.fail(f"malformed:{key}", "a grid file written without any error is malformed: " + msg, {"grid": g.name, "config": g.cfg})
         n += len(documented)
         # chi: finite exactly on the closed field lines (core regions inside the primary separatrix), NaN elsewhere -- from the assembled file and the region layout
-        if g.cfg["kind"] == "tokamak" and "chi" in g.d["file"]:
-            chi = np.asarray(g.d["file"]["chi"], dtype=float)
-            for rid, r in g.d["regions"].items():
-                (x0, x1), (y0, y1) = g.d["mesh"]["region_indices"][rid]
-                blk = chi[x0:x1, y0:y1]
-                closed = ("core" in r["eqname"]) and r["radialIndex"] < r["separatrix_radial_index"]
-                n += blk.size
-                if closed and not np.all(np.isfinite(blk)):
-                    chk.fail("malformed:nan-pattern:chi:closed-surface", "chi is not finite on closed field lines", {"grid": g.name, "region": r["name"], "non_finite": int((~np.isfinite(blk)).sum())})
-                if not closed and not np.all(np.isnan(blk)):
-                    chk.fail("malformed:nan-pattern:chi:open-field-line", "chi is not NaN on open field lines (it is documented as undefined there)", {"grid": g.name, "region": r["name"], "finite": int(np.isfinite(blk).sum())})
+        for suf in ("", "_xlow", "_ylow"):
+            if g.cfg["kind"] == "tokamak" and "chi" + suf in g.d["file"]:
+                chi = np.asarray(g.d["file"]["chi" + suf], dtype=float)
+                for rid, r in g.d["regions"].items():
+                    (x0, x1), (y0, y1) = g.d["mesh"]["region_indices"][rid]
+                    blk = chi[x0:x1, y0:y1]
+                    closed = ("core" in r["eqname"]) and r["radialIndex"] < r["separatrix_radial_index"]
+                    n += blk.size
+                    if closed and not np.all(np.isfinite(blk)):
+                        chk.fail(f"malformed:nan-pattern:chi{suf}:closed-surface", f"chi{suf} is not finite on closed field lines", {"grid": g.name, "region": r["name"], "non_finite": int((~np.isfinite(blk)).sum()), "of": int(blk.size)})
+                    if not closed and suf != "_xlow" and not np.all(np.isnan(blk)):
+                        # (the x-face copy of the innermost open surface is the separatrix itself: not judged)
+                        chk.fail(f"malformed:nan-pattern:chi{suf}:open-field-line", f"chi{suf} is not NaN on open field lines (it is documented as undefined there)", {"grid": g.name, "region": r["name"], "finite": int(np.isfinite(blk).sum())})
     # ---- around the envelope: an exception or a valid file
     E = envelope_configs(chk.tier)
     for c, g in zip(E, corpus.get(names=[], extra_cfgs=E)):
